@@ -1,7 +1,9 @@
 package mon
 
 import (
+	"fmt"
 	"math/big"
+	"os"
 	"strings"
 
 	"verifharness/chain"
@@ -80,6 +82,9 @@ func runC01(c *fw.Case) {
 			}
 		}
 		t := r.nextTime(c)
+		if os.Getenv("VERIF_TRACE") != "" {
+			fmt.Fprintln(os.Stderr, "C01 block", b, fmtTime(t))
+		}
 		res, err := n.BeginBlock(t)
 		r.now = t
 		if err != nil {
